@@ -136,7 +136,7 @@ def summarize(prop, tier, seed, hs, by_h, engine_b=None, wall_s=0.0, extra_assum
                              % (prop, h.id, json.dumps(b)[:500]))
         for e in errors:
             lines.append("HARNESS-ERROR property=%s harness=%s %s" % (prop, h.id, e[:600]))
-        if hev["ok"] == 0 and not errors and n_viol == 0 and n_known == 0:
+        if hev["ok"] == 0 and hev["paths"] > 0 and not errors and n_viol == 0 and n_known == 0:
             lines.append("HARNESS-ERROR property=%s harness=%s vacuous: no path reached the oracle"
                          % (prop, h.id))
             n_nonrepro += 1
